@@ -55,12 +55,13 @@ package gsm7encoding
 //@   option repr = arr
 //@   props C08,C03
 //@   ensures [C08 bits] forall j int :: 0 <= j && j < len(septets) ==> septets[j] == specSeptet(src, j)
-//@   ensures [C08 count] len(septets) == 8 * len(src) / 7 || (len(src) > 0 && len(src) % 7 == 0 && len(septets) == 8 * len(src) / 7 - 1 && (specSeptet(src, 8 * len(src) / 7 - 1) == 0 || specSeptet(src, 8 * len(src) / 7 - 1) == 13))
+//@   ensures [C08 count] len(septets) == 8 * len(src) / 7 || (len(src) > 0 && len(src) % 7 == 0 && len(septets) == 8 * len(src) / 7 - 1 && (src[len(src) - 1] == 0 || specSeptet(src, 8 * len(src) / 7 - 1) == 13))
+//@   ensures [C08,C05 keeps] len(src) > 0 && len(src) % 7 == 0 && src[len(src) - 1] != 0 && specSeptet(src, 8 * len(src) / 7 - 1) != 13 ==> len(septets) == 8 * len(src) / 7
 //@   ensures [C03 alloc] alloc <= 16 * len(src) + 64
 //@   loop 1
 //@     invariant 0 <= count && count <= len(src) && remain == len(src) - count
 //@     invariant count == len(src) || count % 7 == 0
-//@     invariant len(septets) == 8 * count / 7 || (count == len(src) && count > 0 && count % 7 == 0 && len(septets) == 8 * count / 7 - 1 && specSeptet(src, 8 * count / 7 - 1) == 0)
+//@     invariant len(septets) == 8 * count / 7 || (count == len(src) && count > 0 && count % 7 == 0 && len(septets) == 8 * count / 7 - 1 && src[count - 1] == 0)
 //@     invariant forall j int :: 0 <= j && j < len(septets) ==> septets[j] == specSeptet(src, j)
 //@     invariant alloc <= entry(alloc) + 8 * count
 //@     decreases remain
@@ -217,7 +218,7 @@ package gsm7encoding
 //@   loop 1
 //@     invariant 0 <= count && count <= len(src) && remain == len(src) - count
 //@     invariant count == len(src) || count % 7 == 0
-//@     invariant len(septets) == 8 * count / 7 || (count == len(src) && count > 0 && count % 7 == 0 && len(septets) == 8 * count / 7 - 1 && specSeptet(src, 8 * count / 7 - 1) == 0)
+//@     invariant len(septets) == 8 * count / 7 || (count == len(src) && count > 0 && count % 7 == 0 && len(septets) == 8 * count / 7 - 1 && src[count - 1] == 0)
 //@     invariant forall j int :: 0 <= j && j < len(septets) ==> septets[j] == specSeptet(src, j)
 //@     decreases remain
 //@   loop 2
